@@ -11,6 +11,7 @@ package main
 // order of creation as in the model), aged or not, and that every transport is fully built.
 
 import (
+	"bytes"
 	"context"
 	"encoding/json"
 	"errors"
@@ -18,6 +19,8 @@ import (
 	"net"
 	"net/http"
 	"net/http/httptest"
+	"runtime"
+	"runtime/debug"
 	"strings"
 	"time"
 
@@ -80,6 +83,107 @@ func trFail(step int, key, format string, a ...interface{}) hx.Result {
 	return hx.Result{OK: false, Key: "C19/transport/" + key, What: fmt.Sprintf("step %d: ", step) + fmt.Sprintf(format, a...)}
 }
 
+// ---------------------------------------------------------------- the transports mutex as a scheduler gate
+//
+// A run of consecutive critical sections of the schedule - reaper passes and one getTransport (the first of a
+// call, or the second one after a failed request) - is realised as a queue on the real transportsMutex: the
+// replay holds the mutex, starts the critical sections one by one in the order of the schedule and waits until
+// each is parked in Lock (waiter count of the mutex and, because the count is raised a moment before the
+// goroutine is queued, its state in a goroutine dump), keeps the mutex until every waiter has waited longer than
+// the starvation threshold of sync.Mutex (1 ms) and then releases - re-acquires - releases it: the first woken
+// waiter finds the mutex taken again after more than 1 ms, switches it to starvation mode and queues up again at
+// the front (the replay waits for that before the final release); in that mode Unlock hands the mutex DIRECTLY to
+// the next waiter and yields the processor to it.  The critical sections then run in
+// queue order with no gap between them: the reaper queued behind a getTransport starts at the instant that
+// getTransport unlocks.  Nothing here decides a verdict: whatever the timing, the critical sections are the
+// library's own and their order is the queue order; without the hand-over they merely run further apart.
+
+const starvationWait = 3 * time.Millisecond
+
+// parkedOnMap counts the goroutines parked in sync.Mutex.Lock inside getTransport / reaper of this tripper.
+func parkedOnMap(addr uintptr, bufp *[]byte) int {
+	if *bufp == nil {
+		*bufp = make([]byte, 256<<10)
+	}
+	var dump []byte
+	for {
+		n := runtime.Stack(*bufp, true)
+		if n < len(*bufp) {
+			dump = (*bufp)[:n]
+			break
+		}
+		*bufp = make([]byte, 2*len(*bufp))
+	}
+	get := []byte(fmt.Sprintf("destinationTripper).getTransport(0x%x", addr))
+	reap := []byte(fmt.Sprintf("destinationTripper).reaper(0x%x", addr))
+	count := 0
+	for _, g := range bytes.Split(dump, []byte("\n\n")) {
+		if !bytes.Contains(g[:min(len(g), 80)], []byte("[sync.Mutex.Lock")) {
+			continue
+		}
+		if bytes.Contains(g, get) || bytes.Contains(g, reap) {
+			count++
+		}
+	}
+	return count
+}
+
+type trChain struct {
+	end     int    // index of the last step of the chain
+	get     int    // index of the call / get_again step
+	lead    int    // reaper passes queued before the getTransport
+	trail   bool   // a reaper pass queued directly behind it
+	pattern string // class of the chain
+}
+
+// trChainAt recognises a chain that starts at step i: reaper* (call | send_fail reaper* get_again) reaper?
+func trChainAt(steps []trStep, i int) *trChain {
+	at := func(j int) string {
+		if j < len(steps) {
+			return steps[j].A
+		}
+		return ""
+	}
+	st := steps[i]
+	switch {
+	case st.A == "send_fail" && !st.Q:
+		j, lead := i+1, 0
+		for at(j) == "reaper" {
+			lead, j = lead+1, j+1
+		}
+		if at(j) != "get_again" {
+			return nil
+		}
+		c := &trChain{end: j, get: j, lead: lead, trail: at(j+1) == "reaper"}
+		if lead == 0 && !c.trail {
+			return nil
+		}
+		c.pattern = "fail" + strings.Repeat(">reaper", lead) + ">get"
+		if c.trail {
+			c.end++
+			c.pattern += ">reaper"
+		}
+		return c
+	case st.A == "call" && at(i+1) == "reaper":
+		return &trChain{end: i + 1, get: i, trail: true, pattern: "call>reaper"}
+	case st.A == "reaper" && st.Q:
+		j, lead := i, 0
+		for at(j) == "reaper" {
+			lead, j = lead+1, j+1
+		}
+		if at(j) != "call" {
+			return nil
+		}
+		c := &trChain{end: j, get: j, lead: lead, trail: at(j+1) == "reaper", pattern: strings.Repeat("reaper>", lead) + "call"}
+		if c.trail {
+			c.end++
+			c.pattern += ">reaper"
+		}
+		return c
+	}
+	return nil
+}
+
 func trReplay(raw json.RawMessage) hx.Result {
 	var sc trSched
 	if err := json.Unmarshal(raw, &sc); err != nil {
@@ -99,46 +203,158 @@ func trReplay(raw json.RawMessage) hx.Result {
 	ids := map[http.RoundTripper]int{} // identity of a transport = order of first appearance in the map
 	classes := map[string]bool{}
 	pending := ""
-	for i, st := range sc.Steps {
-		switch st.A {
-		case "call":
-			p := res.procs[st.P]
-			ctx := context.WithValue(context.Background(), procKey{}, st.P)
-			req, err := http.NewRequestWithContext(ctx, "GET", "matrix://"+tlsName(st.N)+"/_matrix/key/v2/server", nil)
-			if err != nil {
-				panic(err)
-			}
-			go func() {
-				resp, err := tripper.RoundTrip(req)
-				ev := gateEvent{kind: "ret", ok: err == nil}
-				if err != nil {
-					ev.err = err.Error()
-				} else {
-					ev.ok = resp.StatusCode == 200
-					resp.Body.Close()
+	startCall := func(st trStep) {
+		p := res.procs[st.P]
+		ctx := context.WithValue(context.Background(), procKey{}, st.P)
+		req, err := http.NewRequestWithContext(ctx, "GET", "matrix://"+tlsName(st.N)+"/_matrix/key/v2/server", nil)
+		if err != nil {
+			panic(err)
+		}
+		go func() {
+			ev := gateEvent{kind: "ret"}
+			defer func() {
+				if e := recover(); e != nil {
+					ev = gateEvent{kind: "panic", err: fmt.Sprintf("%v\n%s", e, libFrames(debug.Stack()))}
 				}
 				p.ev <- ev
 			}()
-			pending = st.P
-		case "send_ok":
-			res.procs[st.P].rel <- gateRelease{ok: true}
-			pending = st.P
-		case "send_fail":
-			res.procs[st.P].rel <- gateRelease{ok: false}
-			pending = st.P
-		case "get_again":
-			// second getTransport of RoundTrip: follows the failed request without a hook
-		case "reaper":
-			tripper.Reaper()
-		case "age":
-			if !tripper.SetLastUsed(tlsName(st.N), time.Now().Add(-time.Hour)) {
-				return trFail(i, "cache-differs", "the model ages the transport of %q but the map holds none", st.N)
+			resp, err := tripper.RoundTrip(req)
+			ev.ok = err == nil
+			if err != nil {
+				ev.err = err.Error()
+			} else {
+				ev.ok = resp.StatusCode == 200
+				resp.Body.Close()
 			}
-		default:
-			panic("unknown step " + st.A)
-		}
-		if !st.Q {
-			continue
+		}()
+	}
+	// one reaper pass in a goroutine of its own; a panic of the pass is its outcome
+	reapDone := make(chan string, 8)
+	startReaper := func() {
+		go func() {
+			defer func() {
+				if e := recover(); e != nil {
+					reapDone <- fmt.Sprintf("%v\n%s", e, libFrames(debug.Stack()))
+					return
+				}
+				reapDone <- ""
+			}()
+			tripper.Reaper()
+		}()
+	}
+	var dumpBuf []byte
+	reaperPanic := func(i int, after string, p string) hx.Result {
+		return trFail(i, "reaper-panic", "the reaper pass scheduled %s panicked: %s", after, p)
+	}
+	for i := 0; i < len(sc.Steps); i++ {
+		st := sc.Steps[i]
+		getStep := st
+		if ch := trChainAt(sc.Steps, i); ch != nil {
+			// the critical sections of the chain queue up on the held mutex in schedule order
+			tripper.LockMap()
+			queued := 0
+			var starters []func()
+			for k := 0; k < ch.lead; k++ {
+				starters = append(starters, startReaper)
+			}
+			g := sc.Steps[ch.get]
+			if g.A == "call" {
+				starters = append(starters, func() { startCall(g) })
+			} else {
+				starters = append(starters, func() { res.procs[g.P].rel <- gateRelease{ok: false} })
+			}
+			if ch.trail {
+				starters = append(starters, startReaper)
+			}
+			deadline := time.Now().Add(stepTimeout)
+			for _, start := range starters {
+				start()
+				queued++
+				for {
+					if n, _, _ := tripper.MapState(); n >= queued && parkedOnMap(tripper.Addr(), &dumpBuf) >= queued {
+						break
+					}
+					if time.Now().After(deadline) {
+						tripper.UnlockMap()
+						return trFail(i, "no-progress", "chain %s: critical section %d of %d did not reach the transports mutex within %v", ch.pattern, queued, len(starters), stepTimeout)
+					}
+					time.Sleep(100 * time.Microsecond)
+				}
+			}
+			time.Sleep(starvationWait)
+			tripper.UnlockMap()
+			tripper.LockMap()
+			// The woken waiter finds the mutex taken and, having waited > 1 ms, sets starvation mode and queues up again
+			// at the front.  The final release waits until no waiter is in transit (woken flag clear) and every waiter the
+			// mutex counts is parked in its queue (the count is raised a moment before the goroutine is queued): only
+			// then is the order of the remaining critical sections the order of the queue.
+			handedOver := false
+			for {
+				n, woken, starving := tripper.MapState()
+				if !woken && parkedOnMap(tripper.Addr(), &dumpBuf) == n {
+					handedOver = starving && n == queued
+					break
+				}
+				if time.Now().After(deadline) {
+					tripper.UnlockMap()
+					return trFail(i, "no-progress", "chain %s: the waiters of the transports mutex did not settle within %v", ch.pattern, stepTimeout)
+				}
+				runtime.Gosched()
+			}
+			tripper.UnlockMap()
+			for k := 0; k < ch.lead+map[bool]int{false: 0, true: 1}[ch.trail]; k++ {
+				select {
+				case p := <-reapDone:
+					if p != "" {
+						return reaperPanic(i, "in the chain "+ch.pattern+" on the transports mutex (each critical section starts when the one before it unlocks)", p)
+					}
+				case <-time.After(stepTimeout):
+					return trFail(i, "no-progress", "chain %s: a reaper pass did not return within %v", ch.pattern, stepTimeout)
+				}
+			}
+			if handedOver {
+				classes["chain:"+ch.pattern] = true
+			}
+			pending = g.P
+			getStep = g
+			i = ch.end
+			st = sc.Steps[i]
+		} else {
+			switch st.A {
+			case "call":
+				startCall(st)
+				pending = st.P
+			case "send_ok":
+				res.procs[st.P].rel <- gateRelease{ok: true}
+				pending = st.P
+			case "send_fail":
+				res.procs[st.P].rel <- gateRelease{ok: false}
+				pending = st.P
+			case "get_again":
+				// second getTransport of RoundTrip: follows the failed request without a hook
+			case "reaper":
+				if !st.Q {
+					panic("reaper pass between a failed request and the second getTransport outside a chain")
+				}
+				startReaper()
+				select {
+				case p := <-reapDone:
+					if p != "" {
+						return reaperPanic(i, "at a quiescent point", p)
+					}
+				case <-time.After(stepTimeout):
+					return trFail(i, "no-progress", "the reaper pass did not return within %v", stepTimeout)
+				}
+			case "age":
+				if !tripper.SetLastUsed(tlsName(st.N), time.Now().Add(-time.Hour)) {
+					return trFail(i, "cache-differs", "the model ages the transport of %q but the map holds none", st.N)
+				}
+			default:
+				panic("unknown step " + st.A)
+			}
+			if !st.Q {
+				continue
+			}
 		}
 		classes[st.A+">"+st.At+"/"+st.St] = true
 		if pending != "" {
@@ -146,20 +362,23 @@ func trReplay(raw json.RawMessage) hx.Result {
 			select {
 			case ev = <-res.procs[pending].ev:
 			case <-time.After(stepTimeout):
-				return trFail(i, "no-progress", "caller %s did not reach its next yield point within %v after %s", st.P, stepTimeout, st.A)
+				return trFail(i, "no-progress", "caller %s did not reach its next yield point within %v after %s", getStep.P, stepTimeout, getStep.A)
 			}
 			pending = ""
-			switch st.At {
+			if ev.kind == "panic" {
+				return trFail(i, "roundtrip-panic", "RoundTrip of caller %s panicked after %s: %s", getStep.P, getStep.A, ev.err)
+			}
+			switch getStep.At {
 			case "send":
-				if ev.kind != "resolve" || ev.host != st.N+".c19.test" {
-					return trFail(i, "step-outcome", "%s by %s: model: request for %q in flight; code: %s", st.A, st.P, st.N, ev.describe())
+				if ev.kind != "resolve" || ev.host != getStep.N+".c19.test" {
+					return trFail(i, "step-outcome", "%s by %s: model: request for %q in flight; code: %s", getStep.A, getStep.P, getStep.N, ev.describe())
 				}
 			case "idle":
-				if ev.kind != "ret" || ev.ok != (st.St == "ok") {
-					return trFail(i, "step-outcome", "%s by %s: model: RoundTrip returns %s; code: %s", st.A, st.P, st.St, ev.describe())
+				if ev.kind != "ret" || ev.ok != (getStep.St == "ok") {
+					return trFail(i, "step-outcome", "%s by %s: model: RoundTrip returns %s; code: %s", getStep.A, getStep.P, getStep.St, ev.describe())
 				}
 			default:
-				panic("quiescent step with caller at " + st.At)
+				panic("quiescent step with caller at " + getStep.At)
 			}
 		}
 		snap := tripper.Snapshot()
